@@ -14,7 +14,7 @@ import (
 	"sync"
 	"time"
 
-	"github.com/hashicorp/serf/serf"
+	"github.com/openGemini/openGemini/lib/util/lifted/hashicorp/serf/serf"
 	"github.com/openGemini/openGemini/lib/config"
 	"github.com/openGemini/openGemini/lib/metaclient"
 	"github.com/openGemini/openGemini/lib/util/lifted/influx/influxql"
@@ -282,7 +282,12 @@ func (m *sqlMeta) afterBatch(s *CatSpec, n int) error {
 			continue
 		}
 		last := rp.ShardGroups[len(rp.ShardGroups)-1]
-		info := &meta.ReShardingInfo{Database: dbName, Rp: rpName, ShardGroupID: last.ID, SplitTime: r.SplitTime, Bounds: r.Bounds}
+		split := r.SplitTime
+		if split < 0 {
+			// -k: k quarters into the last shard group (whatever group that is at this moment)
+			split = last.StartTime.UnixNano() + (-split)*(last.EndTime.UnixNano()-last.StartTime.UnixNano())/4
+		}
+		info := &meta.ReShardingInfo{Database: dbName, Rp: rpName, ShardGroupID: last.ID, SplitTime: split, Bounds: r.Bounds}
 		if err := m.master.ReSharding(info); err != nil {
 			return fmt.Errorf("ReSharding: %w", err)
 		}
